@@ -33,6 +33,11 @@ def _cases(rng, tier):
             cand = [r for r in range(16) if 0.02 <= radius / EDGE[r] <= 3] or [15]
         res = rng.choice(cand) if cand else 15
         out.append((loops, lat, lng, radius, res, kind))
+    # needle-thin polygons across the antimeridian (edge tracing of the legacy algorithm, F2)
+    for _ in range(24 if tier == "quick" else 300):
+        loops, (lat, lng, radius) = gen.rand_polygon(rng, kind="anti-needle")
+        cand = [r for r in range(16) if 1.5 <= radius / EDGE[r] <= 25]
+        out.append((loops, lat, lng, radius, rng.choice(cand) if cand else 15, "anti-needle"))
     # two far-apart holes (hole-index mixups need >= 2 holes)
     for _ in range(4 if tier == "quick" else 40):
         lat, lng = rng.uniform(-1, 1), rng.uniform(-3, 3)
